@@ -75,6 +75,10 @@ class Harness:
         self.cbmc = kv.get("cbmc", "")
         self.kani = kv.get("kani", "")
         self.expect = kv.get("expect", "pass")  # pass | fail (vacuity twins)
+        # replay=solver: the harness cannot run natively (e.g. it hands the code a Vec laid
+        # over a stack array, which std's debug precondition checks abort on); its
+        # counterexamples are reported from the solver's concrete values and marked
+        self.replay = kv.get("replay", "native")
         self.fq = fq_module(host) + "kani_" + family + "::" + self.name
 
     def descr(self):
@@ -762,13 +766,15 @@ def do_check(prop, tier, extra_engine=None):
                 ok = [t for t in ts if repro.get(t["name"], (False,))[0]]
                 k = match_known(known, prop, h, c)
                 unreplayable = [x for x in NO_NATIVE_REPLAY_STUBS if x in h.stubs.split(",")]
+                if h.replay == "solver":
+                    unreplayable.append("(harness construction: replay=solver)")
                 if not ok and unreplayable and ts:
                     # #[kani::stub] is not applied by `cargo kani playback`: a harness whose
                     # oracle depends on such a stub (the recording MAC standing in for HMAC)
                     # cannot reproduce natively by construction.  The solver's counterexample
                     # (concrete values in the playback test) is reported as it is, and marked.
                     t = ts[0]
-                    repro[t["name"]] = (True, "solver-only", "not natively replayable: the harness's oracle depends on stub %s; "
+                    repro[t["name"]] = (True, "solver-only", "not natively replayable (%s); "
                                         "the concrete counterexample values are in the playback test below" % ",".join(unreplayable))
                     ok = [t]
                 if not ok:
